@@ -18,7 +18,7 @@ From EC Require Import Lib.Outcome Lib.ListW Model.Msgs Model.Replica Model.Repl
   Proofs.ProtocolLiveCatch Proofs.ProtocolLiveNoStop Proofs.ProtocolLiveCommitStep
   Proofs.ProtocolLiveCommitLock Proofs.ProtocolLiveCommit Proofs.ProtocolLiveTimeoutStep
   Proofs.ProtocolLiveTimeoutLock Proofs.ProtocolLiveTimeout Proofs.ProtocolLiveTidy
-  Proofs.ProtocolLiveLockstep Proofs.ProtocolLiveAlign Proofs.ProtocolLiveGoals.
+  Proofs.ProtocolLiveLockstep Proofs.ProtocolLiveAlign Proofs.ProtocolLiveAvail Proofs.ProtocolLiveGoals.
 From EC Require Proofs.ReplicaCaches Proofs.ReplicaJustified Proofs.ProtocolRefinesStep.
 Import ListNotations.
 Open Scope Z_scope.
@@ -348,6 +348,66 @@ Theorem C06G_view_recommits : forall P pay fetch, params_ok P -> env_ok P pay ->
 Proof. exact view_recommits_holds. Qed.
 Print Assumptions C06G_view_recommits.
 
+(* payload availability (ProtocolLiveAvail): if an honest node has persisted a high vote for
+   block (n, h), then in every later reachable state some honest node has the payload (n, h)
+   among its persisted proposals, and in its cache while it runs, unless a good commit
+   certificate for a block number >= n is known.  (A vote on a proposal with payload caches the
+   payload before the vote is persisted; a vote on a re-proposal is justified by a timeout
+   certificate with an honest reporter of an earlier vote for the same block; the cache is
+   pruned only below a held commit certificate; restarts rebuild the cache from the persisted
+   proposals.) *)
+Theorem C06G_payload_available : forall P, params_ok P -> forall n h s, preach P s ->
+  forall k d c, honestb P k = true -> In (k, d) (g_plog s) -> d_high_vote d = Some c ->
+  hnum (cprop c) = n -> hpay (cprop c) = h ->
+  (exists k', honestb P k' = true /\ In (n, h) (d_proposals (n_dur (g_node s k'))) /\
+     (n_alive (g_node s k') = true -> cache_has (r_cache (n_live (g_node s k'))) n h = true)) \/
+  (exists q, ProtocolRefinesStep.gq (pcfg P 0) (honestb P) (g_soup s) q /\ n <= hnum (cprop (qmsg q))).
+Proof. exact payload_available. Qed.
+Print Assumptions C06G_payload_available.
+
+(* hence the cached-payload hypothesis of C06G_view_recommits holds by itself when no good commit
+   certificate for a block number >= n is known *)
+Theorem C06G_reproposal_payload_kept : forall P s V n h, params_ok P -> preach P s ->
+  reproposal_on_network P s V n h -> uncertified P s n ->
+  exists k0, honestb P k0 = true /\ In (n, h) (d_proposals (n_dur (g_node s k0))) /\
+    (n_alive (g_node s k0) = true -> cache_has (r_cache (n_live (g_node s k0))) n h = true).
+Proof. exact reproposal_payload_kept. Qed.
+Print Assumptions C06G_reproposal_payload_kept.
+
+Theorem C06G_view_recommits_avail : forall P pay fetch, params_ok P -> env_ok P pay -> forall s V n h,
+  preach P s -> headroom P s 4 -> 0 < V -> waiting P s V n -> reproposal_on_network P s V n h ->
+  uncertified P s n ->
+  fetch_ok_at P fetch (sync_point P pay (sync_round P pay fetch s)) ->
+  forall k, honestb P k = true ->
+    up (sync_rounds P pay fetch 2 s) k /\ hview (sync_rounds P pay fetch 2 s) k = V + 1 /\
+    height s k < height (sync_rounds P pay fetch 2 s) k.
+Proof. exact view_recommits_avail_holds. Qed.
+Print Assumptions C06G_view_recommits_avail.
+
+Theorem C06G_uncertified_unfold : forall P s n,
+  uncertified P s n <->
+  (forall q, cqc_verify (p_g P) (p_e P) (p_C P) q = Ok tt ->
+     (forall k c, In (k, RCommit c) (qagg q) -> honestb P k = true ->
+        In {| m_key := k; m_sig_ok := true; m_msg := MCommit c |} (g_soup s)) ->
+     hnum (cprop (qmsg q)) < n).
+Proof.
+  intros P s n. split.
+  - intros H q Hv Hk. exact (H q (conj Hv Hk)).
+  - intros H q [Hv Hk]. exact (H q Hv Hk).
+Qed.
+Print Assumptions C06G_uncertified_unfold.
+
+(* a sufficient, computable condition: the validators that are Byzantine or have a commit vote
+   for a block number >= n on the network weigh less than a quorum *)
+Theorem C06G_light_uncertified : forall P, params_ok P -> forall s n,
+  weight (cweights (p_C P))
+    (map (fun i => ProtocolRefinesAbs.abyz P i ||
+                   existsb (fun m => (m_key m =? ProtocolRefinesAbs.key_of P i) && m_sig_ok m &&
+                                     match m_msg m with MCommit c => n <=? hnum (cprop c) | _ => false end) (g_soup s))
+         (seq 0 (length (p_C P)))) < quorum (p_C P) -> uncertified P s n.
+Proof. exact light_uncertified. Qed.
+Print Assumptions C06G_light_uncertified.
+
 Theorem C06G_reproposal_on_network_unfold : forall P s V n h,
   reproposal_on_network P s V n h <->
   (exists j mv,
@@ -413,6 +473,93 @@ Theorem C06G_no_proposal_unfold : forall P s V,
      justification_verify (p_g P) (p_e P) (p_C P) j' = Ok tt -> False).
 Proof. exact (fun P s V => iff_refl _). Qed.
 Print Assumptions C06G_no_proposal_unfold.
+
+(* the timeout twin when some honest nodes have already timed out in view V (phases Prepare and
+   Timeout mixed): every honest node is in view V and has not voted in it, no verifying proposal
+   for V is on the network, and the validators that are Byzantine or have a timeout vote for
+   view V or later on the network weigh less than a quorum (no timeout certificate for V can
+   exist yet: C06G_light_no_tqc).  Then every honest node enters view V+1 in the second round,
+   in the same round, with the same conclusions as C06G_view_times_out.  (That no honest commit
+   vote for view V is on the network, and that the honest timeout votes verify, is derived from
+   C06G_vote_provenance and C06G_honest_sends_verify below.) *)
+Theorem C06G_view_times_out_mixed : forall P pay fetch, params_ok P -> env_ok P pay -> forall s V n,
+  preach P s -> headroom P s 4 -> 0 < V -> unvoted P s V n -> no_proposal P s V -> timed_out_light P s V ->
+  forall k0, honestb P k0 = true ->
+  let s2 := sync_rounds P pay fetch 2 s in
+  let L' := cleader (pcfg P 0) (V + 1) in
+  (forall k, honestb P k = true ->
+     up s2 k /\ hview s2 k = V + 1 /\ r_phase (n_live (g_node s2 k)) = Prepare /\ height s k <= height s2 k) /\
+  (honestb P L' = true ->
+     exists tq p, vnum (tqview tq) = V /\
+       justification_verify (p_g P) (p_e P) (p_C P) (JTimeout tq) = Ok tt /\
+       ProtocolRefinesStep.kt (honestb P) (g_soup s2) tq /\
+       proposal_payload P pay (JTimeout tq) = Some p /\
+       In {| m_key := L'; m_sig_ok := true; m_msg := MProposal p (JTimeout tq) |} (g_soup s2) /\
+       (forall m p' j' mv', In m (g_soup s2) -> m_msg m = MProposal p' j' -> m_key m = L' -> m_sig_ok m = true ->
+          justification_view (E := unit) true j' = Ok mv' -> vnum mv' = V + 1 ->
+          justification_verify (p_g P) (p_e P) (p_C P) j' = Ok tt -> p' = p /\ j' = JTimeout tq)) /\
+  (honestb P L' = false -> no_proposal P s2 (V + 1)).
+Proof. exact view_times_out_mixed_holds. Qed.
+Print Assumptions C06G_view_times_out_mixed.
+
+(* an honest node's commit vote on the network is for the view of a verifying proposal that is
+   on the network (honest nodes vote only in on_proposal, for the delivered proposal) *)
+Theorem C06G_vote_provenance : forall P s, preach P s ->
+  forall m c, In m (g_soup s) -> m_sig_ok m = true -> honestb P (m_key m) = true -> m_msg m = MCommit c ->
+  exists m' p j, In m' (g_soup s) /\ m_msg m' = MProposal p j /\
+    justification_view (E := unit) true j = Ok (cview c) /\
+    justification_verify (p_g P) (p_e P) (p_C P) j = Ok tt.
+Proof. exact preach_VP. Qed.
+Print Assumptions C06G_vote_provenance.
+
+(* every message an honest node has put on the network verifies *)
+Theorem C06G_honest_sends_verify : forall P s, preach P s ->
+  forall m, In m (g_soup s) -> m_sig_ok m = true -> honestb P (m_key m) = true ->
+  match m_msg m with
+  | MCommit c => commit_verify (p_g P) (p_e P) c = Ok tt
+  | MTimeout t => timeout_verify (p_g P) (p_e P) (p_C P) t = Ok tt
+  | MNewView j | MProposal _ j => justification_verify (p_g P) (p_e P) (p_C P) j = Ok tt
+  end.
+Proof. exact preach_SOK. Qed.
+Print Assumptions C06G_honest_sends_verify.
+
+Theorem C06G_unvoted_unfold : forall P s V n,
+  unvoted P s V n <->
+  (forall k, honestb P k = true ->
+     up s k /\ hview s k = V /\ r_phase (n_live (g_node s k)) <> PCommit /\
+     r_store_next (n_live (g_node s k)) = n).
+Proof. exact (fun P s V n => iff_refl _). Qed.
+Print Assumptions C06G_unvoted_unfold.
+
+Theorem C06G_timed_out_light_unfold : forall P s V,
+  timed_out_light P s V <->
+  weight (cweights (p_C P))
+    (map (fun i => ProtocolRefinesAbs.abyz P i ||
+                   existsb (fun m => (m_key m =? ProtocolRefinesAbs.key_of P i) && m_sig_ok m &&
+                                     match m_msg m with MTimeout t => V <=? vnum (tview t) | _ => false end) (g_soup s))
+         (seq 0 (length (p_C P)))) < quorum (p_C P).
+Proof. exact (fun P s V => iff_refl _). Qed.
+Print Assumptions C06G_timed_out_light_unfold.
+
+(* what the weight hypothesis means: no verifying timeout certificate for view V or later whose
+   honest signatures are on the network *)
+Theorem C06G_light_no_tqc : forall P, params_ok P -> forall s V, timed_out_light P s V ->
+  forall t, tqc_verify (p_g P) (p_e P) (p_C P) t = Ok tt -> ProtocolRefinesStep.kt (honestb P) (g_soup s) t ->
+  vnum (tqview t) < V.
+Proof. exact (fun P HP s V => light_no_tqc P HP (g_soup s) V). Qed.
+Print Assumptions C06G_light_no_tqc.
+
+(* a validator recorded by a running honest node with a timeout vote for the node's view or a
+   later one is a signer of the timeout certificate the node is assembling for that view *)
+Theorem C06G_timeout_views_have_bits : forall P s, preach P s -> forall k, n_alive (g_node s k) = true ->
+  forall h v, zmap_get (r_timeout_views (n_live (g_node s k))) h = Some v -> r_view (n_live (g_node s k)) <= v ->
+  exists i0 t0 en, cindex (p_C P) h = Some i0 /\
+    zmap_get (r_timeout_qcs (n_live (g_node s k))) v = Some t0 /\ In en (tqmap t0) /\ nth_error (snd en) i0 = Some true.
+Proof.
+  intros P s Hr k Hal h v Hg Hv. destruct (preach_TB P s Hr k Hal h v Hg Hv) as (i0 & t0 & en & A & _ & B & C & D).
+  exists i0, t0, en. auto.
+Qed.
+Print Assumptions C06G_timeout_views_have_bits.
 
 (* the latest timeout view a running honest node has recorded for an honest validator is the
    view of a timeout vote that validator put on the network *)
@@ -638,13 +785,13 @@ Example C06G_example_view_commits_state :
 Proof. exact ex_s1_unfold. Qed.
 Print Assumptions C06G_example_view_commits_state.
 
-(* the hypotheses of C06G_view_recommits hold in a reachable state of a six-validator network
+(* the hypotheses of C06G_view_recommits and C06G_view_recommits_avail hold in a reachable state of a six-validator network
    (validator 2 Byzantine): view 2's leader proposes block 0, three honest validators vote, all
    time out; view 3's leader is forced to re-propose block 0 without payload; validators 1, 3, 4
    have the payload, validators 5 and 6 do not and must fetch the block *)
 Example C06G_example_view_recommits : exists s,
   preach ex_P6 s /\ headroom ex_P6 s 4 /\ waiting ex_P6 s 3 0 /\
-  reproposal_on_network ex_P6 s 3 0 100 /\
+  reproposal_on_network ex_P6 s 3 0 100 /\ uncertified ex_P6 s 0 /\
   (exists k0, honestb ex_P6 k0 = true /\ cache_has (r_cache (n_live (g_node s k0))) 0 100 = true) /\
   (exists k1, honestb ex_P6 k1 = true /\ cache_has (r_cache (n_live (g_node s k1))) 0 100 = false) /\
   fetch_ok_at ex_P6 (find_cert ex_P6) (sync_point ex_P6 ex_pay (sync_round ex_P6 ex_pay (find_cert ex_P6) s)).
@@ -665,6 +812,15 @@ Print Assumptions C06G_example_view_times_out.
 
 (* the state after the first round of the six-validator committee (validator 2 Byzantine) is a
    lockstep state for view 1 and the first block, and the leader of view 2 is honest *)
+(* the hypotheses of C06G_view_times_out_mixed hold in a reachable state in which validators 1
+   and 3 have timed out in view 1 and validators 4, 5, 6 still wait *)
+Example C06G_example_view_times_out_mixed : exists s,
+  preach ex_P6 s /\ headroom ex_P6 s 4 /\ unvoted ex_P6 s 1 0 /\
+  no_proposal ex_P6 s 1 /\ timed_out_light ex_P6 s 1 /\
+  r_phase (n_live (g_node s 1)) = PTimeout /\ r_phase (n_live (g_node s 4)) = Prepare.
+Proof. exact ex_mixed_hyps. Qed.
+Print Assumptions C06G_example_view_times_out_mixed.
+
 Example C06G_example_lockstep : lockstep ex_P6 ex_pay ex_s6 1 (p_first ex_P6) /\ byz_run ex_P6 1 1.
 Proof. exact ex_lockstep. Qed.
 Print Assumptions C06G_example_lockstep.
